@@ -32,6 +32,9 @@ pub enum Present {
     OtherMsg(BytesSpec),
     /// through the internal interface (M' = message, no formatting)
     Internal,
+    /// context of `256*a + r` bytes together with a signature forged (t1 = 0 base) for exactly the string a
+    /// verifier that wraps the length byte would hash: the reference rejects (ctx too long)
+    AliasLongCtx(u16),
 }
 
 #[derive(Clone, Debug, Hash, Serialize, Deserialize)]
@@ -58,6 +61,7 @@ fn present() -> impl Strategy<Value = Present> {
         1 => gen::pk_spec().prop_map(Present::OtherPk),
         1 => gen::message(300).prop_map(Present::OtherMsg),
         1 => Just(Present::Internal),
+        2 => any::<u16>().prop_map(Present::AliasLongCtx),
     ]
 }
 
@@ -65,7 +69,7 @@ fn mutant() -> impl Strategy<Value = Mutant> {
     (proptest::collection::vec(sigs::sig_mut(), 0..3), any::<bool>(), present()).prop_map(|(muts, rehash, present)| Mutant { muts, rehash, present })
 }
 
-fn strategy(max_msg: u32) -> impl Strategy<Value = Case> {
+pub fn strategy(max_msg: u32) -> impl Strategy<Value = Case> {
     let base = prop_oneof![
         3 => sigs::honest_spec(max_msg).prop_map(Base::Honest),
         6 => sigs::forge_spec(max_msg, sigs::zval_ok()).prop_map(Base::Forge),
@@ -123,8 +127,28 @@ fn present_tuple(p: &rf::Params, t: &Tuple, pr: &Present) -> (Tuple, bool) {
         Present::OtherPk(s) => t.pk = gen::build_pk(p, s),
         Present::OtherMsg(m) => t.m = m.bytes(),
         Present::Internal => internal = true,
+        Present::AliasLongCtx(n) => t.ctx = alias_ctx(*n, &t.ctx),
     }
     (t, internal)
+}
+
+/// lengths 256, 257, 511, 512, 513, 65536 + k, and arbitrary 256..=1279; prefix = the original context
+fn alias_ctx(n: u16, base: &[u8]) -> Vec<u8> {
+    let len = match n % 8 {
+        0 => 256,
+        1 => 257,
+        2 => 511,
+        3 => 512,
+        4 => 65_536 + (n as usize >> 3) % 256,
+        5 => 256 + base.len() % 256,
+        _ => 256 + (n as usize >> 3) % 1024,
+    };
+    let mut c = base.to_vec();
+    while c.len() < len {
+        c.push((c.len() % 249) as u8 ^ 0x5A);
+    }
+    c.truncate(len);
+    c
 }
 
 fn compare(libr: &dyn Lib, p: &rf::Params, t: &Tuple, internal: bool, st: &mut Stats, label: &str) -> Result<Verdict, Fail> {
@@ -192,7 +216,24 @@ pub fn check(c: &Case, st: &mut Stats) -> CheckResult {
         }
         let mut t = b.tuple.clone();
         t.sig = sig;
-        let (t, internal) = present_tuple(&p, &t, &mu.present);
+        let (mut t, internal) = present_tuple(&p, &t, &mu.present);
+        if let (Present::AliasLongCtx(_), true) = (&mu.present, b.forged) {
+            let f = rf::sig_decode(&p, &t.sig);
+            if let Ok(h) = &f.h {
+                let mut m_prime = vec![u8::from(t.mode != Mode::Pure), (t.ctx.len() % 256) as u8];
+                m_prime.extend_from_slice(&t.ctx);
+                if t.mode == Mode::Pure {
+                    m_prime.extend_from_slice(&t.m);
+                } else {
+                    let (oid, phm) = rf::prehash(t.mode, &t.m);
+                    m_prime.extend_from_slice(&oid);
+                    m_prime.extend_from_slice(&phm);
+                }
+                let c = sigs::ctilde_for_t1_zero(&p, &t.pk, &m_prime, &f.z, h);
+                t.sig = rf::sig_encode(&p, &c, &f.z, h);
+                st.class("alias_long_ctx:forged_for_wrapped_length");
+            }
+        }
         let tags: Vec<&str> = mu.muts.iter().map(SigMut::tag).collect();
         let label = format!("{base_class}+{}{}+{:?}", tags.join("+"), if rehashed { "+rehash" } else { "" }, std::mem::discriminant(&mu.present));
         let rv = compare(libr, &p, &t, internal, st, &label)?;
